@@ -1,4 +1,4 @@
-import GateryModel.C05.LemmasClash
+import GateryModel.C05.LemmasBuild
 /-!
 # C05 helper lemmas 8 — an executed block tracks the sequential interpreter
 -/
@@ -23,7 +23,7 @@ theorem Active.frame {B B1 : BState} (h : Active ρ B) (hw : WF B) (hf : Frame B
 /-- the statement of the executed-context induction, for one program -/
 def ActiveSpec (ρ : List Val) (p : Prog) : Prop :=
   ∀ (B B' : BState) (env env' : List Val) (ch : Option Bool),
-    build p B = some B' → run p env ch = some env' → B'.clash = false →
+    build p B = some B' → run p env ch = some env' →
     WF B → Agree ρ B.nodes B.sigs env → Active ρ B → ChainOK ρ B ch →
     WF B' ∧ Frame B B' ∧ Agree ρ B'.nodes B'.sigs env' ∧ B.sigs.length ≤ B'.sigs.length
 
@@ -44,10 +44,10 @@ theorem full_of_active {B : BState} (hw : WF B) (ha : Active ρ B) {ns : Nodes} 
 /-- a block inside a freshly opened scope whose full condition evaluates to `[t]`: executed if `t`, skipped otherwise -/
 theorem scoped_body {body : Prog} (ihb : ActiveSpec ρ body) {B B1 B2 B3 : BState} {new : Scope} {env env1 : List Val} {t : Bool}
     (hw : WF B) (ho : Opened B B1 new) (hfv : valAt ρ B1.nodes new.full = [t]) (ha : Agree ρ B.nodes B.sigs env)
-    (h2 : build body B1 = some B2) (h3 : popScope B2 B.sigs.length = some B3) (hc : B2.clash = false)
+    (h2 : build body B1 = some B2) (h3 : popScope B2 B.sigs.length = some B3)
     (hrun : (if t then dropLocals env.length (run body env none) else some env) = some env1) :
     WF B3 ∧ Frame B B3 ∧ Agree ρ B3.nodes B3.sigs env1 ∧ B3.sigs.length = B.sigs.length ∧
-    WF B2 ∧ Frame B1 B2 ∧ B3.clash = false := by
+    WF B2 ∧ Frame B1 B2 := by
   have ha1 : Agree ρ B1.nodes B1.sigs env := by rw [ho.sigs]; exact ha.mono hw.sigs ho.ext
   cases t with
   | true =>
@@ -60,18 +60,18 @@ theorem scoped_body {body : Prog} (ihb : ActiveSpec ρ body) {B B1 B2 B3 : BStat
       simp only [List.cons.injEq] at hs
       obtain ⟨rfl, _⟩ := hs
       exact hfv
-    obtain ⟨w2, f2, a2, l2⟩ := ihb B1 B2 env envb none h2 hrb hc ho.wf ha1 hact1 (by intro t ht; cases ht)
-    obtain ⟨w3, f3, a3, c3⟩ := pop_active ho w2 f2 a2 h3
+    obtain ⟨w2, f2, a2, l2⟩ := ihb B1 B2 env envb none h2 hrb ho.wf ha1 hact1 (by intro t ht; cases ht)
+    obtain ⟨w3, f3, a3⟩ := pop_active ho w2 f2 a2 h3
     have hl3 := pop_sigs_length ho f2 l2 h3
     rw [ha.1]
-    exact ⟨w3, f3, a3, hl3, w2, f2, by rw [c3]; exact hc⟩
+    exact ⟨w3, f3, a3, hl3, w2, f2⟩
   | false =>
     simp only [Bool.false_eq_true, if_false, Option.some.injEq] at hrun
     subst hrun
     obtain ⟨w2, f2, k2, l2⟩ := build_dead (ρ := ρ) body B1 B2 new B.scopes h2 ho.wf ho.scopes hfv
-    obtain ⟨w3, f3, k3, c3⟩ := pop_dead hw ho w2 f2 k2 h3
+    obtain ⟨w3, f3, k3⟩ := pop_dead hw ho w2 f2 k2 h3
     have hl3 := pop_sigs_length ho f2 l2 h3
-    exact ⟨w3, f3, agree_of_keeps hw ha k3 hl3, hl3, w2, f2, by rw [c3]; exact hc⟩
+    exact ⟨w3, f3, agree_of_keeps hw ha k3 hl3, hl3, w2, f2⟩
 
 theorem ite_bind {α β : Type} {c : Prop} [Decidable c] (a b : Option α) (f : α → Option β) :
     (if c then a.bind f else b.bind f) = (if c then a else b).bind f := by
@@ -83,43 +83,43 @@ theorem bit_val {v : Val} {t : Ty} (hl : v.length = t.width) (ht : t = .bit) : v
 theorem build_active (p : Prog) : ActiveSpec ρ p := by
   induction p with
   | done =>
-    intro B B' env env' ch h hr hc hw ha hact hch
+    intro B B' env env' ch h hr hw ha hact hch
     simp [build] at h; subst h
     simp [run] at hr; subst hr
     exact ⟨hw, Frame.refl _, ha, Nat.le_refl _⟩
   | decl ty init k ihk =>
-    intro B B' env env' ch h hr hc hw ha hact hch
+    intro B B' env env' ch h hr hw ha hact hch
     simp only [build, Option.bind_eq_bind] at h
     obtain ⟨B1, h1, h2⟩ := Option.bind_eq_some_iff.mp h
     simp only [run, Option.bind_eq_bind] at hr
     obtain ⟨v, hv, hr2⟩ := Option.bind_eq_some_iff.mp hr
-    obtain ⟨w1, f1, _, _, ns, i, _, _, hs⟩ := stepDecl_frame h1 hw
+    obtain ⟨w1, f1, _, ns, i, _, _, hs⟩ := stepDecl_frame h1 hw
     have a1 := stepDecl_active h1 hw ha hv
-    obtain ⟨w2, f2, a2, l2⟩ := ihk B1 B' _ env' none h2 hr2 hc w1 a1 (hact.frame hw f1) (by intro t ht; cases ht)
+    obtain ⟨w2, f2, a2, l2⟩ := ihk B1 B' _ env' none h2 hr2 w1 a1 (hact.frame hw f1) (by intro t ht; cases ht)
     exact ⟨w2, f1.trans f2, a2, by rw [hs] at l2; simp at l2; omega⟩
   | declDefault ty d k ihk =>
-    intro B B' env env' ch h hr hc hw ha hact hch
+    intro B B' env env' ch h hr hw ha hact hch
     simp only [build, Option.bind_eq_bind] at h
     obtain ⟨B1, h1, h2⟩ := Option.bind_eq_some_iff.mp h
     simp only [run] at hr
-    obtain ⟨w1, f1, _, _, _, s, hs, _⟩ := stepDefault_frame (ρ := ρ) h1 hw
+    obtain ⟨w1, f1, _, _, s, hs, _⟩ := stepDefault_frame (ρ := ρ) h1 hw
     have a1 := stepDefault_active h1 hw ha
-    obtain ⟨w2, f2, a2, l2⟩ := ihk B1 B' _ env' none h2 hr hc w1 a1 (hact.frame hw f1) (by intro t ht; cases ht)
+    obtain ⟨w2, f2, a2, l2⟩ := ihk B1 B' _ env' none h2 hr w1 a1 (hact.frame hw f1) (by intro t ht; cases ht)
     exact ⟨w2, f1.trans f2, a2, by rw [hs] at l2; simp at l2; omega⟩
   | assign x p e k ihk =>
-    intro B B' env env' ch h hr hc hw ha hact hch
+    intro B B' env env' ch h hr hw ha hact hch
     simp only [build, Option.bind_eq_bind] at h
     obtain ⟨B1, h1, h2⟩ := Option.bind_eq_some_iff.mp h
     simp only [run, Option.bind_eq_bind] at hr
     obtain ⟨v, hv, hr⟩ := Option.bind_eq_some_iff.mp hr
     obtain ⟨cur, hcur, hr⟩ := Option.bind_eq_some_iff.mp hr
     obtain ⟨nv, hnv, hr⟩ := Option.bind_eq_some_iff.mp hr
-    obtain ⟨w1, f1, _, _, hl⟩ := stepAssign_frame h1 hw
+    obtain ⟨w1, f1, _, hl⟩ := stepAssign_frame h1 hw
     have a1 := stepAssign_active h1 hw ha hact hv hcur hnv
-    obtain ⟨w2, f2, a2, l2⟩ := ihk B1 B' _ env' none h2 hr hc w1 a1 (hact.frame hw f1) (by intro t ht; cases ht)
+    obtain ⟨w2, f2, a2, l2⟩ := ihk B1 B' _ env' none h2 hr w1 a1 (hact.frame hw f1) (by intro t ht; cases ht)
     exact ⟨w2, f1.trans f2, a2, by omega⟩
   | ifS c body k ihb ihk =>
-    intro B B' env env' ch h hr hc hw ha hact hch
+    intro B B' env env' ch h hr hw ha hact hch
     simp only [build, Option.bind_eq_bind] at h
     obtain ⟨B1, h1, h⟩ := Option.bind_eq_some_iff.mp h
     obtain ⟨B2, h2, h⟩ := Option.bind_eq_some_iff.mp h
@@ -128,26 +128,24 @@ theorem build_active (p : Prog) : ActiveSpec ρ p := by
     obtain ⟨vc, hvc, hr⟩ := Option.bind_eq_some_iff.mp hr
     rw [ite_bind] at hr
     obtain ⟨env1, henv1, hr⟩ := Option.bind_eq_some_iff.mp hr
-    have c3 : B3.clash = false := build_clash_false h hc
-    have c2 : B2.clash = false := by rw [← popScope_clash h3]; exact c3
     obtain ⟨ns, ci, new, hb, e1, lci, o1, ocond, oent, ocomb, ens, fv⟩ := openIf_spec (ρ := ρ) h1 hw
     obtain ⟨g1, g2⟩ := buildExpr_sound c _ _ _ _ vc hb ha hw.sigs hvc
     have hvc1 : vc = [truthy vc] := bit_val g2 rfl
     have hfv : valAt ρ B1.nodes new.full = [truthy vc] := by
       rw [fv, g1]; exact full_of_active hw hact e1 vc _ hvc1
-    obtain ⟨w3, f3, a3, l3, w2, f2, _⟩ := scoped_body ihb hw o1 hfv ha h2 h3 c2 henv1
+    obtain ⟨w3, f3, a3, l3, w2, f2⟩ := scoped_body ihb hw o1 hfv ha h2 h3 henv1
     -- m_lastCondition after the destructor
     have hs2 : B2.scopes = new :: B.scopes := by rw [f2.scopes, o1.scopes]
-    obtain ⟨_, _, _, _, p5, p6⟩ := popScope_spec hs2 h3
+    obtain ⟨_, _, _, p5, p6⟩ := popScope_spec hs2 h3
     simp only [ocomb, oent] at p6
     have hch3 : ChainOK ρ B3 (some (truthy vc)) := by
       intro t ht; cases ht
       refine ⟨ci, by rw [p6, ocond], ?_⟩
       rw [valAt_ext ((ens.trans f2.ext).trans p5) lci, g1]
-    obtain ⟨w4, f4, a4, l4⟩ := ihk B3 B' env1 env' _ h hr hc w3 a3 (hact.frame hw f3) hch3
+    obtain ⟨w4, f4, a4, l4⟩ := ihk B3 B' env1 env' _ h hr w3 a3 (hact.frame hw f3) hch3
     exact ⟨w4, f3.trans f4, a4, by omega⟩
   | elseS body k ihb ihk =>
-    intro B B' env env' ch h hr hc hw ha hact hch
+    intro B B' env env' ch h hr hw ha hact hch
     simp only [build, Option.bind_eq_bind] at h
     obtain ⟨B1, h1, hA⟩ := Option.bind_eq_some_iff.mp h
     obtain ⟨B2, h2, hB⟩ := Option.bind_eq_some_iff.mp hA
@@ -157,8 +155,6 @@ theorem build_active (p : Prog) : ActiveSpec ρ p := by
     obtain ⟨taken, htk, hr⟩ := Option.bind_eq_some_iff.mp hr
     rw [ite_bind] at hr
     obtain ⟨env1, henv1, hr⟩ := Option.bind_eq_some_iff.mp hr
-    have c3 : B3.clash = false := build_clash_false hC hc
-    have c2 : B2.clash = false := by rw [← popScope_clash h3]; exact c3
     obtain ⟨l, hl, hlv⟩ := hch taken htk
     unfold openElse at h1
     simp only [hl, Option.bind_eq_bind, Option.bind_some, Option.some.injEq] at h1
@@ -171,19 +167,17 @@ theorem build_active (p : Prog) : ActiveSpec ρ p := by
       | cons parent rest => simp only; rw [hact parent rest hs]; simp [truthy]
     have henv1' : (if (!taken) = true then dropLocals env.length (run body env none) else some env) = some env1 := by
       cases taken <;> simpa using henv1
-    obtain ⟨w3, f3, a3, l3, _, _, _⟩ := scoped_body ihb hw o1 hfv ha h2 h3 c2 henv1'
-    obtain ⟨w4, f4, a4, l4⟩ := ihk B3 B' env1 env' none hC hr hc w3 a3 (hact.frame hw f3) (by intro t ht; cases ht)
+    obtain ⟨w3, f3, a3, l3, _, _⟩ := scoped_body ihb hw o1 hfv ha h2 h3 henv1'
+    obtain ⟨w4, f4, a4, l4⟩ := ihk B3 B' env1 env' none hC hr w3 a3 (hact.frame hw f3) (by intro t ht; cases ht)
     exact ⟨w4, f3.trans f4, a4, by omega⟩
   | elseifS c body k ihb ihk =>
-    intro B B' env env' ch h hr hc hw ha hact hch
+    intro B B' env env' ch h hr hw ha hact hch
     simp only [build, Option.bind_eq_bind] at h
     obtain ⟨B1, h1, h⟩ := Option.bind_eq_some_iff.mp h
     obtain ⟨B2, h2, h⟩ := Option.bind_eq_some_iff.mp h
     obtain ⟨B3, h3, h⟩ := Option.bind_eq_some_iff.mp h
     simp only [run, Option.bind_eq_bind] at hr
     obtain ⟨taken, htk, hr⟩ := Option.bind_eq_some_iff.mp hr
-    have c3 : B3.clash = false := build_clash_false h hc
-    have c2 : B2.clash = false := by rw [← popScope_clash h3]; exact c3
     obtain ⟨l, hl, hlv⟩ := hch taken htk
     obtain ⟨ns, ci, l', new, o, hb, hl', e1, lci, o1, oent, ocomb, olt, ov, fv⟩ := openElseIf_spec (ρ := ρ) h1 hw
     rw [hl] at hl'; cases hl'
@@ -195,15 +189,15 @@ theorem build_active (p : Prog) : ActiveSpec ρ p := by
         cases hs : B.scopes with
         | nil => simp [hlv]
         | cons parent rest => simp [hlv]
-      obtain ⟨w3, f3, a3, l3, w2, f2, _⟩ := scoped_body (t := false) (env1 := env) ihb hw o1 hfv ha h2 h3 c2 (by simp)
+      obtain ⟨w3, f3, a3, l3, w2, f2⟩ := scoped_body (t := false) (env1 := env) ihb hw o1 hfv ha h2 h3 (by simp)
       have hs2 : B2.scopes = new :: B.scopes := by rw [f2.scopes, o1.scopes]
-      obtain ⟨_, _, _, _, p5, p6⟩ := popScope_spec hs2 h3
+      obtain ⟨_, _, _, p5, p6⟩ := popScope_spec hs2 h3
       simp only [ocomb] at p6
       have hch3 : ChainOK ρ B3 (some true) := by
         intro t ht; cases ht
         refine ⟨o, p6, ?_⟩
         rw [valAt_ext (f2.ext.trans p5) olt, ov, hlv]; rfl
-      obtain ⟨w4, f4, a4, l4⟩ := ihk B3 B' env env' _ h hr hc w3 a3 (hact.frame hw f3) hch3
+      obtain ⟨w4, f4, a4, l4⟩ := ihk B3 B' env env' _ h hr w3 a3 (hact.frame hw f3) hch3
       exact ⟨w4, f3.trans f4, a4, by omega⟩
     | false =>
       simp only [Bool.false_eq_true, if_false, Option.bind_eq_bind] at hr
@@ -216,18 +210,18 @@ theorem build_active (p : Prog) : ActiveSpec ρ p := by
         cases hs : B.scopes with
         | nil => simp [hlv, g1]
         | cons parent rest => simp [hlv, g1, hact parent rest hs, truthy_single]
-      obtain ⟨w3, f3, a3, l3, w2, f2, _⟩ := scoped_body ihb hw o1 hfv ha h2 h3 c2 henv1
+      obtain ⟨w3, f3, a3, l3, w2, f2⟩ := scoped_body ihb hw o1 hfv ha h2 h3 henv1
       have hs2 : B2.scopes = new :: B.scopes := by rw [f2.scopes, o1.scopes]
-      obtain ⟨_, _, _, _, p5, p6⟩ := popScope_spec hs2 h3
+      obtain ⟨_, _, _, p5, p6⟩ := popScope_spec hs2 h3
       simp only [ocomb] at p6
       have hch3 : ChainOK ρ B3 (some (truthy vc)) := by
         intro t ht; cases ht
         refine ⟨o, p6, ?_⟩
         rw [valAt_ext (f2.ext.trans p5) olt, ov, hlv, g1]; simp [truthy]
-      obtain ⟨w4, f4, a4, l4⟩ := ihk B3 B' env1 env' _ h hr hc w3 a3 (hact.frame hw f3) hch3
+      obtain ⟨w4, f4, a4, l4⟩ := ihk B3 B' env1 env' _ h hr w3 a3 (hact.frame hw f3) hch3
       exact ⟨w4, f3.trans f4, a4, by omega⟩
   | elseIf2 c body k ihb ihk =>
-    intro B B' env env' ch h hr hc hw ha hact hch
+    intro B B' env env' ch h hr hw ha hact hch
     simp only [build, Option.bind_eq_bind] at h
     obtain ⟨l, hl, hA⟩ := Option.bind_eq_some_iff.mp h
     obtain ⟨B2, h1, hB⟩ := Option.bind_eq_some_iff.mp hA
@@ -239,13 +233,6 @@ theorem build_active (p : Prog) : ActiveSpec ρ p := by
     obtain ⟨taken, htk, hr⟩ := Option.bind_eq_some_iff.mp hr
     obtain ⟨l', hl', hlv⟩ := hch taken htk
     rw [hl] at hl'; cases hl'
-    -- the ghost flag stayed down: the ELSE destructor saw that the inner IF had closed
-    have c6 : (noteClash l B4 B5).clash = false := build_clash_false hE hc
-    have hne : B4.lastCond ≠ some l := by
-      intro he; unfold noteClash at c6; rw [if_pos he] at c6; simp at c6
-    have c5 : B5.clash = false := by unfold noteClash at c6; rw [if_neg hne] at c6; exact c6
-    have c4 : B4.clash = false := by rw [← popScope_clash h4]; exact c5
-    have c3 : B3.clash = false := by rw [← popScope_clash h3]; exact c4
     -- the ELSE scope
     obtain ⟨e, o1, eent, ecomb, _, fve⟩ := pushElse_spec (ρ := ρ) hw (hw.last l hl)
     have hfe : valAt ρ (pushElse B l).nodes e.full = [!taken] := by
@@ -267,7 +254,7 @@ theorem build_active (p : Prog) : ActiveSpec ρ p := by
         (truthy (valAt ρ ns ci) || taken) = tk → run k env1 (some tk) = some env' →
         WF B' ∧ Frame B B' ∧ Agree ρ B'.nodes B'.sigs env' ∧ B.sigs.length ≤ B'.sigs.length := by
       intro env1 tk w3 f3 w4 f4 a4 l4 htk' hrk
-      obtain ⟨w5, f5, a5, _⟩ := pop_active o1 w4 f4 a4 h4
+      obtain ⟨w5, f5, a5⟩ := pop_active o1 w4 f4 a4 h4
       have hl5 := pop_sigs_length o1 f4 (by rw [l4]; exact Nat.le_refl _) h4
       have htake : env1.take B.sigs.length = env1 := by
         apply List.take_of_length_le
@@ -275,33 +262,31 @@ theorem build_active (p : Prog) : ActiveSpec ρ p := by
       rw [htake] at a5
       -- m_lastCondition after the two destructors
       have hs3 : B3.scopes = i :: (pushElse B l).scopes := by rw [f3.scopes, oi.scopes]
-      obtain ⟨_, _, _, _, p5, p6⟩ := popScope_spec hs3 h3'
+      obtain ⟨_, _, pn3, p5, p6⟩ := popScope_spec hs3 h3'
       simp only [icomb, ient] at p6
       have hs4 : B4.scopes = e :: B.scopes := by rw [f4.scopes, o1.scopes]
-      obtain ⟨_, _, _, _, q5, q6⟩ := popScope_spec hs4 h4
+      obtain ⟨_, _, _, q5, q6⟩ := popScope_spec hs4 h4
       simp only [ecomb, eent, p6] at q6
-      have hcil : i.cond ≠ l := by intro he; apply hne; rw [p6, he]
-      simp only [ne_eq, hcil, not_false_eq_true, if_true] at q6
-      obtain ⟨nf, nn, _, nl, nid⟩ := noteClash_fields l B4 B5
-      have hci4 : i.cond < B4.nodes.size := by rw [icond]; exact ((ens.trans f3.ext).trans p5).lt lci
-      have hl4' : l < B4.nodes.size := (o1.ext.trans f4.ext).lt (hw.last l hl)
-      have hch6 : ChainOK ρ (noteClash l B4 B5) (some tk) := by
+      -- a scope was opened inside the ELSE: s_nextId moved on
+      have hnid : B4.nextId ≠ e.id + 1 := by
+        have h1' := f3.nextId
+        rw [oi.nextId, o1.nextId] at h1'
+        rw [pn3, o1.id]; omega
+      simp only [ne_eq, hnid, not_false_eq_true, if_true] at q6
+      have hch6 : ChainOK ρ B5 (some tk) := by
         intro t ht; cases ht
-        refine ⟨B4.nodes.size, by rw [nl]; exact q6.1, ?_⟩
-        rw [nf, q6.2, val_or, icond, valAt_ext ((ens.trans f3.ext).trans p5) lci,
+        refine ⟨B4.nodes.size, q6.1, ?_⟩
+        rw [q6.2, val_or, icond, valAt_ext ((ens.trans f3.ext).trans p5) lci,
           valAt_ext (o1.ext.trans f4.ext) (hw.last l hl), hlv, truthy_single]
         exact htk'
-      have w6 : WF (noteClash l B4 B5) := noteClash_wf w5
-      have f6 : Frame B (noteClash l B4 B5) := noteClash_frame f5
-      have a6 : Agree ρ (noteClash l B4 B5).nodes (noteClash l B4 B5).sigs env1 := by rw [nf, nn]; exact a5
-      obtain ⟨w7, f7, a7, l7⟩ := ihk _ B' env1 env' _ hE hrk hc w6 a6 (hact.frame hw f6) hch6
-      refine ⟨w7, f6.trans f7, a7, ?_⟩
-      rw [nn, hl5] at l7; exact l7
+      obtain ⟨w7, f7, a7, l7⟩ := ihk _ B' env1 env' _ hE hrk w5 a5 (hact.frame hw f5) hch6
+      refine ⟨w7, f5.trans f7, a7, ?_⟩
+      rw [hl5] at l7; exact l7
     cases taken with
     | true =>
       simp only [if_true] at hr
       have hid : valAt ρ B2.nodes i.full = [false] := by rw [hfi]; simp
-      obtain ⟨w4, f4, a4, l4, w3, f3, _⟩ := scoped_body (t := false) (env1 := env) ihb o1.wf oi hid ha1 h2 h3' c3 (by simp)
+      obtain ⟨w4, f4, a4, l4, w3, f3⟩ := scoped_body (t := false) (env1 := env) ihb o1.wf oi hid ha1 h2 h3' (by simp)
       exact tail env true w3 f3 w4 f4 a4 l4 (by simp) hr
     | false =>
       simp only [Bool.false_eq_true, if_false, Option.bind_eq_bind] at hr
@@ -313,7 +298,7 @@ theorem build_active (p : Prog) : ActiveSpec ρ p := by
       have henv1' : (if truthy vc = true then dropLocals (pushElse B l).sigs.length (run body env none) else some env) = some env1 := by
         rw [o1.sigs, ← hlen]; exact henv1
       have ha1' := ha1
-      obtain ⟨w4, f4, a4, l4, w3, f3, _⟩ := scoped_body (t := truthy vc) (env1 := env1) ihb o1.wf oi hid ha1 h2 h3' c3
+      obtain ⟨w4, f4, a4, l4, w3, f3⟩ := scoped_body (t := truthy vc) (env1 := env1) ihb o1.wf oi hid ha1 h2 h3'
         (by rw [ha1.1]; exact henv1')
       exact tail env1 (truthy vc) w3 f3 w4 f4 a4 l4 (by rw [g1]; simp) hr
 
